@@ -160,6 +160,18 @@ def _vector_to_grads(ctx, cfg):
     kind, arch = cfg["kind"], cfg["arch"]
     state = DC.make_state(kind, *arch)
     ctx.under_contract("gradients_utils.vector_to_grads")
+    # the layout of the gradient vectors (effective_energy_gradient, gamma_grad, pi_grad: C03) is weights first, then the
+    # biases; vector_to_grads slices by parameters() order, so that order must be this layout - for a fresh state and
+    # after the parameters were re-initialised (history)
+    layout = ["weights", "visible_bias", "hidden_bias"] if kind != "mixed" else ["weights_W", "weights_U", "visible_bias", "hidden_bias", "aux_bias"]
+    for hist in ("fresh", "after reinitialize_parameters", "after a second reinitialize_parameters"):
+        if hist != "fresh":
+            state.reinitialize_parameters()
+        for net in state.networks:
+            names_now = [nm for nm, _p in getattr(state, net).named_parameters()]
+            ctx.holds("layout/%s: parameters() order of %s is the gradient vector's layout %s" % (hist, net, layout), names_now == layout, str(names_now))
+            ctx.holds("layout/%s: num_pars of %s is the total number of entries" % (hist, net),
+                      getattr(state, net).num_pars == sum(p.numel() for p in getattr(state, net).parameters()))
     for net in state.networks:
         rbm = getattr(state, net)
         n = rbm.num_pars
